@@ -165,26 +165,7 @@ def check(ctx):
     ctx.analysed(uci)
     ctx.analysed(pu)
     files, ranks, promos = _local_string(uci, 'files'), _local_string(uci, 'ranks'), _local_string(uci, 'promotions')
-    ctx.ob('C16.R2.file-rank-letters', 'uci', files == 'abcdefgh' and ranks == '12345678',
-           'uci() prints file k as chr(\'a\'+k) and rank k as chr(\'1\'+k) (tables %r, %r)' % (files, ranks), site=uci.loc())
-    # indices used with those tables
-    idx_ok = True
-    uses = []
-    for n in uci.all_nodes():
-        if n['k'] == 'CXXOperatorCallExpr' and n.get('op') == '[]':
-            ks = kids(n)
-            tab = short(strip_casts(ks[1]).get('ref', {}).get('n', ''))
-            ix = strip_casts(ks[2])
-            while ix['k'] in ('ImplicitCastExpr',):
-                ix = strip_casts(kids(ix)[0])
-            fn_ = short(ix.get('callee', {}).get('n', ''))
-            inner = short(strip_casts(kids(ix)[1]).get('callee', {}).get('n', '')) if ix.get('callee') and len(kids(ix)) > 1 else ''
-            uses.append((tab, fn_, inner))
-    exp_uses = [('files', 'file', 'from'), ('ranks', 'rank', 'from'), ('files', 'file', 'to'), ('ranks', 'rank', 'to'),
-                ('promotions', 'promotion', '')]
-    ctx.ob('C16.R2.print-order', 'uci', uses == exp_uses,
-           'uci() prints file(from) rank(from) file(to) rank(to) [promotion letter] in that order', site=uci.loc(),
-           detail={'found': str(uses)})
+    # what uci() prints per kind of move, and in which order: C16.R5.uci-print (props/C16fen.py)
     # parser arithmetic: make_square(Rank(str[1]-'1'), File(str[0]-'a')), (str[3], str[2])
     sqdefs = {}
     for n in pu.all_nodes():
@@ -320,21 +301,7 @@ def check(ctx):
     ctor = [f for f in p.fns('engine::Position::Position') if len(f.params) == 1][0]
     ctx.analysed(fen)
     ctx.analysed(ctor)
-    p2c = _local_string(fen, 'piece_to_char')
-    c2p = {}
-    for n in ctor.all_nodes():
-        if n['k'] == 'VarDecl' and n.get('name') == 'char_to_piece':
-            for x in walk(n):
-                if x['k'] == 'CXXConstructExpr' and 'pair' in x.get('callee', {}).get('n', ''):
-                    ks = [strip_casts(y) for y in kids(x)]
-                    if len(ks) == 2 and const_of(ks[0]) is not None and const_of(ks[1]) is not None:
-                        c2p[chr(const_of(ks[0]))] = const_of(ks[1])
-    ok = p2c is not None and len(p2c) == len(pc) and len(c2p) == 12 and \
-        all(c2p.get(p2c[v]) == v for nme, v in pc.items() if nme != 'NO_PIECE') and \
-        p2c == ' PNBRQKpnbrqk'
-    ctx.ob('C16.R3.piece-letters', 'fen~Position(fen)', ok,
-           'the FEN letter printed for each of the 12 pieces (table %r indexed by Piece) is mapped back to that piece by the constructor'
-           % p2c, site=ctor.loc(), detail={'parser': str(c2p)})
+    # the twelve piece letters in both directions: C16.R4.letters-read / letters-written (props/C16fen.py)
     # castling letters
     pr = {}
     for n in fen.all_nodes():
